@@ -48,6 +48,15 @@ def showErr : Option Err → String
   | some .unreplayable => "unreplay"
   | some .digest => "digest"
 
+/-- response-body transformer outcome: `-` none installed, `k` accepts, `n<err>` fails returning a
+nil body, `b<err>` fails returning a body -/
+def parseXf (s : String) : Option Xf :=
+  if s == "-" then some .none
+  else if s == "k" then some .ok
+  else if s.startsWith "n" then (parseErr1 (s.drop 1).toString).map fun e => .fail e false
+  else if s.startsWith "b" then (parseErr1 (s.drop 1).toString).map fun e => .fail e true
+  else none
+
 def showCodec : Option Codec → String
   | none => "-"
   | some .json => "json"
